@@ -15,6 +15,7 @@ pub mod props {
     pub mod c04;
     pub mod c05;
     pub mod c07;
+    pub mod c08;
     pub mod c09;
     pub mod c10;
     pub mod c11;
@@ -64,6 +65,7 @@ pub fn dispatch() -> Vec<(&'static str, RunFn, ReplayFn)> {
         ("C05", props::c05::run_c05, props::c05::replay_c05),
         ("C06", props::c05::run_c06, props::c05::replay_c06),
         ("C07", props::c07::run_c07, props::c07::replay_c07),
+        ("C08", props::c08::run, props::c08::replay),
         ("C09", props::c09::run, props::c09::replay),
         ("C10", props::c10::run, props::c10::replay),
         ("C11", props::c11::run, props::c11::replay),
